@@ -149,12 +149,13 @@ CmpSlices(mem, l1, l2, AsIs) ==
       r1  == l1 % Cell                     \* offset_pos_1
       r2  == l2 % Cell
   IN IF b1 = 0 THEN
-       IF b2 = 0 THEN [r |-> "cont", c1 |-> Tl(FindTail(l1 + pos) + ((pos + r1) \div Cell)), c2 |-> Tl(FindTail(l2 + pos) + ((pos + r2) \div Cell))]
-       ELSE [r |-> "cont", c1 |-> Tl(FindTail(l1 + pos) + ((IF AsIs THEN pos ELSE pos + r1) \div Cell)), c2 |-> Off(pos)]
-     ELSE IF b2 = 0 THEN [r |-> "cont", c1 |-> Off(pos), c2 |-> Tl(FindTail(l2 + pos) + ((pos + r2) \div Cell))]
+       IF b2 = 0 THEN [r |-> "cont", c1 |-> Tl(FindTail(l1 + pos) + ((pos + r1) \div Cell)), c2 |-> Tl(FindTail(l2 + pos) + ((pos + r2) \div Cell)), dev |-> FALSE]
+       ELSE [r |-> "cont", c1 |-> Tl(FindTail(l1 + pos) + ((IF AsIs THEN pos ELSE pos + r1) \div Cell)), c2 |-> Off(pos),
+             dev |-> (pos \div Cell) # ((pos + r1) \div Cell)]       \* here the code as it is names a different cell than the intended arithmetic
+     ELSE IF b2 = 0 THEN [r |-> "cont", c1 |-> Off(pos), c2 |-> Tl(FindTail(l2 + pos) + ((pos + r2) \div Cell)), dev |-> FALSE]
      (* both strings go on and differ at pos: the code compares the valid UTF-8 runs of the 7-byte windows around pos,  *)
      (* which share everything before pos; for well-formed UTF-8 that is the order of the bytes at pos                   *)
-     ELSE [r |-> IF b1 < b2 THEN "lt" ELSE "gt", c1 |-> Off(0), c2 |-> Off(0)]
+     ELSE [r |-> IF b1 < b2 THEN "lt" ELSE "gt", c1 |-> Off(0), c2 |-> Off(0), dev |-> FALSE]
 (* PStrContinuable::offset_by *)
 OffsetBy(mem, c, loc) == IF c.k = "off" THEN Val("pstr", loc + c.v) ELSE CellVal(mem, c.v + (loc \div Cell))
 
@@ -207,4 +208,21 @@ WalkCmp(mem, v1, v2, AsIs, fuel) ==
     IN IF h1.c < h2.c THEN "lt" ELSE IF h1.c > h2.c THEN "gt" ELSE WalkCmp(mem, h1.succ, h2.succ, AsIs, fuel - 1)
   ELSE LET a1 == Read(mem, v1, 64)  a2 == Read(mem, v2, 64)
        IN IF ~a1.ok \/ ~a2.ok THEN "garbage" ELSE AbsCmp(a1.chars, a1.tail.tag, a2.chars, a2.tail.tag)
+
+(* the same walk with the intended arithmetic, in one pass: [r |-> its result, dev |-> did it pass a compare_pstr_slices *)
+(* call at which the code as it is names a different cell (from there on the real comparison reads string bytes as a cell)] *)
+RECURSIVE Walk(_, _, _, _, _)
+Walk(mem, v1, v2, fuel, dev) ==
+  IF fuel = 0 THEN [r |-> "diverge", dev |-> dev]
+  ELSE IF v1.tag = "pstr" /\ v2.tag = "pstr" THEN
+    LET c == CmpSlices(mem, v1.v, v2.v, FALSE) IN
+    IF c.r # "cont" THEN [r |-> c.r, dev |-> dev]
+    ELSE Walk(mem, OffsetBy(mem, c.c1, v1.v), OffsetBy(mem, c.c2, v2.v), fuel - 1, dev \/ c.dev)
+  ELSE IF v1.tag \in {"pstr", "lis"} /\ v2.tag \in {"pstr", "lis"} THEN
+    LET h1 == IF v1.tag = "pstr" THEN CharAndSucc(mem, v1.v) ELSE [c |-> CellVal(mem, v1.v).v, succ |-> CellVal(mem, v1.v + 1)]
+        h2 == IF v2.tag = "pstr" THEN CharAndSucc(mem, v2.v) ELSE [c |-> CellVal(mem, v2.v).v, succ |-> CellVal(mem, v2.v + 1)]
+    IN IF h1.c < h2.c THEN [r |-> "lt", dev |-> dev] ELSE IF h1.c > h2.c THEN [r |-> "gt", dev |-> dev]
+       ELSE Walk(mem, h1.succ, h2.succ, fuel - 1, dev)
+  ELSE LET a1 == Read(mem, v1, 64)  a2 == Read(mem, v2, 64)
+       IN [r |-> IF ~a1.ok \/ ~a2.ok THEN "garbage" ELSE AbsCmp(a1.chars, a1.tail.tag, a2.chars, a2.tail.tag), dev |-> dev]
 =============================================================================
